@@ -1,19 +1,29 @@
-#!/bin/sh
+#!/bin/bash
 # usage: run.sh <Cxx> <quick|thorough>
 # Rebuilds the harness against /repo's current working tree (path dependencies, feature `verif` on), then runs the
-# check. Exit 0 = held, 1 = violation (prints "VIOLATION property=<id> replay=<path>"), 2 = inconclusive/build error.
+# check. Exit 0 = held, 1 = violation (prints "VIOLATION property=<id> replay=<path>"), 2 = inconclusive (build
+# error, watchdog, out of memory, abnormal termination) - never reported as a violation.
 set -u
 prop="$1"
 tier="${2:-quick}"
 export CARGO_NET_OFFLINE=true
+mkdir -p /verif/out
 cd /verif/harness || exit 2
 if ! cargo build --release --offline >/verif/out/build.log 2>&1; then
-    mkdir -p /verif/out
-    cargo build --release --offline >/verif/out/build.log 2>&1 || {
-        echo "BUILD-FAILED: harness does not build against /repo (see /verif/out/build.log)"
-        tail -n 30 /verif/out/build.log
-        exit 2
-    }
+    echo "BUILD-FAILED: harness does not build against /repo (see /verif/out/build.log)"
+    tail -n 30 /verif/out/build.log
+    exit 2
 fi
 cd /verif || exit 2
-exec /verif/target/release/check "$prop" --tier "$tier"
+# supervision: bound the address space and the wall clock so that a runaway loop or allocation inside the code under
+# test ends this run as "inconclusive" instead of taking the machine down
+if [ "$tier" = "thorough" ]; then budget=14400; else budget=1500; fi
+( ulimit -v 41943040; exec timeout --signal=KILL "$budget" /verif/target/release/check "$prop" --tier "$tier" )
+code=$?
+case "$code" in
+    0|1|2) exit "$code" ;;
+    *)
+        echo "INCONCLUSIVE property=$prop: check process ended abnormally (exit status $code: killed by watchdog / out of memory / abort); no verdict"
+        # keep the evidence schema-valid: the run itself could not write it
+        exit 2 ;;
+esac
